@@ -43,6 +43,7 @@ fn main() {
 
 fn real_main(args: &[String]) -> i32 {
     guard::install_hook();
+    install_logger();
     if args.len() < 2 {
         return usage();
     }
@@ -69,6 +70,24 @@ fn real_main(args: &[String]) -> i32 {
         "replay" => {
             let Some(p) = args.get(2) else { return usage() };
             runner::replay(&PathBuf::from(p))
+        }
+        "range" => {
+            // runs from..=run of one seed in this process; prints what happens at the last one
+            let (Some(prop), Some(tier)) = (args.get(2).and_then(|p| Prop::parse(p)), args.get(3).cloned()) else { return usage() };
+            let seed = arg_val(args, "--seed").and_then(|v| v.parse().ok()).unwrap_or(1);
+            let from: u64 = arg_val(args, "--from").and_then(|v| v.parse().ok()).unwrap_or(0);
+            let run: u64 = arg_val(args, "--run").and_then(|v| v.parse().ok()).unwrap_or(0);
+            let (res, hash, _) = runner::on_big_stack(move || runner::run_range(prop, seed, &tier, from, run + 1, run));
+            match res {
+                Some((k, f)) => {
+                    println!("RANGE-FINDING run={} step={} rule={} log_hash={:016x}", run, k, f.rule, hash);
+                    1
+                }
+                None => {
+                    println!("RANGE-CLEAN run={} log_hash={:016x}", run, hash);
+                    0
+                }
+            }
         }
         "trace" => {
             let (Some(prop), Some(tier)) = (args.get(2).and_then(|p| Prop::parse(p)), args.get(3)) else { return usage() };
@@ -300,3 +319,45 @@ fn stack_probe_message(kind: u8) -> Vec<u8> {
     cbor::enc_into(&mut msg, &root);
     msg
 }
+
+
+/// In the build that enables the crate's `log-all` feature, the simulated deployment has a logger
+/// installed at level Trace (as any firmware that enables logging does): every log statement in the
+/// code under test evaluates its arguments and is formatted. The sink only counts and hashes what it
+/// is given; it never reads a clock or the PRNG.
+#[cfg(feature = "log-all")]
+pub static LOG_RECORDS: std::sync::atomic::AtomicU64 = std::sync::atomic::AtomicU64::new(0);
+#[cfg(feature = "log-all")]
+pub static LOG_HASH: std::sync::atomic::AtomicU64 = std::sync::atomic::AtomicU64::new(0);
+
+#[cfg(feature = "log-all")]
+fn install_logger() {
+    use std::fmt::Write;
+    use std::sync::atomic::Ordering;
+    struct Sink;
+    struct H(prng::Fnv);
+    impl Write for H {
+        fn write_str(&mut self, s: &str) -> std::fmt::Result {
+            self.0.write(s.as_bytes());
+            Ok(())
+        }
+    }
+    impl log::Log for Sink {
+        fn enabled(&self, _: &log::Metadata) -> bool {
+            true
+        }
+        fn log(&self, r: &log::Record) {
+            let mut h = H(prng::Fnv::new());
+            let _ = write!(h, "{}", r.args());
+            LOG_RECORDS.fetch_add(1, Ordering::Relaxed);
+            LOG_HASH.fetch_xor(h.0 .0, Ordering::Relaxed);
+        }
+        fn flush(&self) {}
+    }
+    static SINK: Sink = Sink;
+    let _ = log::set_logger(&SINK);
+    log::set_max_level(log::LevelFilter::Trace);
+}
+
+#[cfg(not(feature = "log-all"))]
+fn install_logger() {}
